@@ -1,7 +1,564 @@
-//! C18 — not built yet (stub keeps the registry stable while modules are written in parallel).
+//! C18 — generated Rust code behaves like the VM.
+//!
+//! `Context::emit_rust` either refuses a program (`Err`) or produces Rust source that compiles with
+//! plain rustc (together with the repository's own test host template) and, run sample by sample,
+//! yields bit-for-bit the output words the bytecode VM yields (`exec::run_vm`, NaN = NaN).
 
-use crate::engine::case::Prop;
+use crate::engine::case::*;
+use crate::engine::panics;
+use crate::engine::rng::hash64;
+use crate::engine::shrink::text_candidates;
+use crate::engine::tape::Gen;
+use crate::gens::prog::{self, Layout, Prog, E, PG};
+use crate::props::c01::{self, gen_inputs, line_candidates};
+use crate::runners::exec::{self, canon, Exec, Inputs, RunOpts};
+use mimium_lang::{Config, ExecContext};
+use serde_json::{json, Value};
+use std::path::{Path, PathBuf};
+use std::process::{Command, Stdio};
+use std::sync::atomic::{AtomicU64, Ordering};
+use std::time::{Duration, Instant};
+
+pub struct C18;
 
 pub fn prop() -> Option<&'static dyn Prop> {
-    None
+    Some(&C18)
+}
+
+/// the host `main` scaffold the repository's own Rust-codegen tests use
+const MAIN_TEMPLATE: &str = include_str!("/repo/crates/lib/mimium-lang/src/compiler/mimium_test_main.rs.template");
+
+/// Host of crates/lib/mimium-test/tests/rust_codegen_test.rs, with `now` counted in samples (the
+/// VM driven by `exec::run_vm` reports the sample index) instead of seconds.
+const HOST_DECLS: &str = r#"
+struct TestHost {
+    now: f64,
+    sample_rate: f64,
+}
+
+impl TestHost {
+    fn advance_time(&mut self) {
+        self.now += 1.0;
+    }
+}
+
+impl MimiumHost for TestHost {
+    fn call_ext(
+        &mut self,
+        name: &str,
+        _args: &[Word],
+        _ret_words: usize,
+    ) -> Result<Vec<Word>, String> {
+        Err(format!("unexpected external call: {}", name))
+    }
+
+    fn current_time(&mut self) -> f64 {
+        self.now
+    }
+
+    fn sample_rate(&mut self) -> f64 {
+        self.sample_rate
+    }
+}
+"#;
+
+const RUN_TIMEOUT: Duration = Duration::from_secs(30);
+static CASE_NO: AtomicU64 = AtomicU64::new(0);
+
+// ------------------------------------------------------------------ known findings (switches)
+
+/// builtin math functions that are lowered to external calls (floor, tan, atan2, ...): the emitted
+/// Rust forwards them to the host, the repository's host answers `Err`, the program panics
+pub const KF_MATH_EXT: &str = "C18-math-builtins-unavailable";
+/// builtins the generator uses that MIR lowers to `ExtFunction` calls the embedded runtime does
+/// not implement (it implements min, max, probe, probeln, len, split_*, prepend, append)
+const EXT_MATH_1: &[&str] = &["floor", "ceil", "round", "tanh", "atan", "tan", "sinh", "cosh"];
+const EXT_MATH_2: &[&str] = &["atan2"];
+/// `mem(t.0)` / `delay(N, t.0, ..)`: the operand is loaded from the aggregate memory inside the
+/// argument list of a call on the mutably borrowed state storage: rustc error E0502
+pub const KF_STATE_OPERAND_PROJ: &str = "C18-state-operand-projection-borrow";
+/// `delay(N, x, t.0)`: the delay time is taken from the pointer word of the projection instead of
+/// the projected value
+pub const KF_DELAY_TIME_PROJ: &str = "C18-delay-time-projection";
+
+fn render_host(n_in: usize, n: u64, inputs: &Inputs, call_main: bool) -> String {
+    let mut rows = String::new();
+    for t in 0..n {
+        rows.push_str("    [");
+        for ch in 0..n_in {
+            rows.push_str(&format!("{:#x}u64, ", inputs.at(t, ch).to_bits()));
+        }
+        rows.push_str("],\n");
+    }
+    let decls = format!("{HOST_DECLS}\nconst INPUTS: [[Word; {n_in}]; {n}] = [\n{rows}];\n");
+    let run_body = "    for row in INPUTS.iter() {\n        let output = program.call_dsp(&row[..]).unwrap();\n        let words: Vec<String> = output.iter().map(|w| format!(\"{:x}\", w)).collect();\n        println!(\"={}\", words.join(\" \"));\n        program.host.advance_time();\n    }\n";
+    MAIN_TEMPLATE
+        .replace("/*__DECLS__*/", &decls)
+        .replace("/*__PROGRAM_INIT__*/", "let host = TestHost { now: 0.0, sample_rate: 48_000.0 };\n    let mut program = MimiumProgram::with_host(host);")
+        .replace("/*__CALL_MAIN__*/", if call_main { "    program.call_main().unwrap();\n" } else { "" })
+        .replace("/*__RUN_BODY__*/", run_body)
+}
+
+enum Child {
+    Done { ok: bool, code: Option<i32>, stdout: String, stderr: String },
+    Slow,
+    Spawn(String),
+}
+
+/// run a command with stdout/stderr redirected to files; kill it after `RUN_TIMEOUT`
+fn run_limited(mut cmd: Command, dir: &Path, tag: &str) -> Child {
+    let so = dir.join(format!("{tag}.out"));
+    let se = dir.join(format!("{tag}.err"));
+    let (Ok(fo), Ok(fe)) = (std::fs::File::create(&so), std::fs::File::create(&se)) else { return Child::Spawn("cannot create output files".into()) };
+    cmd.stdin(Stdio::null()).stdout(fo).stderr(fe);
+    let mut ch = match cmd.spawn() {
+        Ok(c) => c,
+        Err(e) => return Child::Spawn(e.to_string()),
+    };
+    let t0 = Instant::now();
+    let mut nap = 1u64;
+    let status = loop {
+        match ch.try_wait() {
+            Ok(Some(s)) => break s,
+            Ok(None) => {
+                if t0.elapsed() > RUN_TIMEOUT {
+                    let _ = ch.kill();
+                    let _ = ch.wait();
+                    return Child::Slow;
+                }
+                std::thread::sleep(Duration::from_millis(nap));
+                nap = (nap * 2).min(20);
+            }
+            Err(e) => return Child::Spawn(e.to_string()),
+        }
+    };
+    let rd = |p: &Path| String::from_utf8_lossy(&std::fs::read(p).unwrap_or_default()).to_string();
+    Child::Done { ok: status.success(), code: status.code(), stdout: rd(&so), stderr: rd(&se) }
+}
+
+struct Scratch(PathBuf);
+impl Scratch {
+    fn new() -> Option<Scratch> {
+        let k = CASE_NO.fetch_add(1, Ordering::Relaxed);
+        let p = PathBuf::from(format!("/verif/target/rustgen/{}-{k}", std::process::id()));
+        std::fs::create_dir_all(&p).ok()?;
+        Some(Scratch(p))
+    }
+}
+impl Drop for Scratch {
+    fn drop(&mut self) {
+        // debugging aid: keep the emitted source and the binary
+        if std::env::var_os("C18_KEEP").is_some() {
+            eprintln!("c18: kept {}", self.0.display());
+            return;
+        }
+        let _ = std::fs::remove_dir_all(&self.0);
+    }
+}
+
+#[derive(Default)]
+struct Out {
+    fail: Option<(String, String)>,
+    discard: Option<String>,
+    /// emit_rust answered Err
+    refused: Option<String>,
+    /// the front end (VM compile) rejects the program as well
+    refused_by_frontend: bool,
+    compiled: bool,
+    ran: bool,
+    n_out: u32,
+    varying: bool,
+    counters: Vec<String>,
+}
+
+fn first_error_line(stderr: &str) -> String {
+    let l = stderr.lines().find(|l| l.starts_with("error")).or_else(|| stderr.lines().find(|l| !l.trim().is_empty())).unwrap_or("");
+    l.trim().to_string()
+}
+
+/// message of the panic that ended the generated program (`thread 'main' panicked at ...:\n<msg>`)
+fn panic_message(stderr: &str) -> String {
+    let mut it = stderr.lines();
+    while let Some(l) = it.next() {
+        if l.contains("panicked at") {
+            if let Some(m) = it.next() {
+                return m.trim().to_string();
+            }
+        }
+    }
+    stderr.lines().find(|l| !l.trim().is_empty()).unwrap_or("").trim().to_string()
+}
+
+/// stable part of a message for signatures: rustc error code (when there is one) and the message
+/// with quoted parts, identifiers with digits and numbers removed
+fn qualifier(msg: &str) -> String {
+    let mut code = String::new();
+    let mut rest = msg.trim();
+    if let Some(r) = rest.strip_prefix("error[") {
+        if let Some(i) = r.find(']') {
+            code = r[..i].to_string();
+            rest = r[i + 1..].trim_start_matches(':').trim();
+        }
+    } else if let Some(r) = rest.strip_prefix("error:") {
+        rest = r.trim();
+    }
+    let mut out = String::new();
+    let mut quoted = false;
+    for ch in rest.chars() {
+        if ch == '`' || ch == '\'' || ch == '"' {
+            if !quoted {
+                out.push('_');
+            }
+            quoted = !quoted;
+            continue;
+        }
+        if quoted {
+            continue;
+        }
+        if ch.is_ascii_digit() {
+            if !out.ends_with('#') {
+                out.push('#');
+            }
+        } else if ch.is_ascii_alphabetic() || ch == '_' {
+            out.push(ch.to_ascii_lowercase());
+        } else if !out.ends_with('-') {
+            out.push('-');
+        }
+    }
+    let out: String = out.trim_matches('-').chars().take(48).collect();
+    if code.is_empty() { out } else { format!("{code}:{out}") }
+}
+
+/// The oracle on one source text.
+fn check(src: &str, inputs: &Inputs, n: u64) -> Out {
+    let mut o = Out::default();
+    macro_rules! fail {
+        ($sig:expr, $($arg:tt)*) => {{ o.fail = Some((format!("c18:{}", $sig), format!($($arg)*))); return o; }};
+    }
+    // exactly the calls of the repository's own Rust-codegen fixture test
+    let mut ctx = ExecContext::new([].into_iter(), None, Config::default());
+    ctx.prepare_compiler();
+    let emitted = panics::catch(|| {
+        let c = ctx.get_compiler().expect("prepare_compiler() leaves a compiler");
+        c.emit_rust(src).map_err(|e| crate::runners::front::diags_of(&e))
+    });
+    let vm = exec::run_vm(src, inputs, &RunOpts { n, sched: false, want_state: false, want_counts: false, want_trace: false });
+    let output = match emitted {
+        Err(p) => {
+            // a crash of the compiler front end is C03/C04's subject; one inside the Rust
+            // generator is not a refusal "with an error"
+            if p.file.contains("rustgen") {
+                fail!(format!("emit-rust-panics:{}", panics::normalise(&p.msg)), "emit_rust panicked: {}", p.describe());
+            }
+            o.discard = Some("frontend-panic".into());
+            return o;
+        }
+        Ok(Err(d)) => {
+            let why = d.first().map(|x| panics::normalise(&x.message)).unwrap_or_default();
+            o.refused_by_frontend = matches!(vm, Exec::Rejected(_));
+            o.refused = Some(why);
+            return o;
+        }
+        Ok(Ok(out)) => out,
+    };
+    let a = match vm {
+        Exec::Ran(a) => a,
+        Exec::Rejected(_) => {
+            o.discard = Some("vm-rejects".into());
+            return o;
+        }
+        Exec::NoIo => {
+            o.discard = Some("no-dsp".into());
+            return o;
+        }
+        // a VM crash leaves no reference behaviour (C03's subject)
+        Exec::Panic(..) | Exec::Error(..) => {
+            o.discard = Some("vm-crash".into());
+            return o;
+        }
+    };
+    let Some(io) = output.io_channels else {
+        o.discard = Some("no-dsp".into());
+        return o;
+    };
+    if (io.input, io.output) != (a.n_in, a.n_out) {
+        fail!("channel-count", "emit_rust reports {}/{} I/O channels, the VM {}/{}", io.input, io.output, a.n_in, a.n_out);
+    }
+    o.n_out = a.n_out;
+    let Some(dir) = Scratch::new() else {
+        o.discard = Some("no-scratch-dir".into());
+        return o;
+    };
+    let call_main = output.source.contains("pub fn call_main");
+    let host = render_host(io.input as usize, n, inputs, call_main);
+    let src_path = dir.0.join("prog.rs");
+    let bin_path = dir.0.join("prog");
+    if std::fs::write(&src_path, format!("{}{host}", output.source)).is_err() {
+        o.discard = Some("no-scratch-dir".into());
+        return o;
+    }
+    let rustc = std::env::var("RUSTC").unwrap_or_else(|_| "rustc".to_string());
+    let mut cmd = Command::new(&rustc);
+    cmd.arg("--edition=2024").arg("-C").arg("debuginfo=0").arg("-C").arg("opt-level=0").arg("-Awarnings").arg(&src_path).arg("-o").arg(&bin_path).current_dir(&dir.0);
+    match run_limited(cmd, &dir.0, "rustc") {
+        Child::Slow => {
+            o.discard = Some("slow".into());
+            return o;
+        }
+        Child::Spawn(e) => {
+            o.discard = Some(format!("cannot-run-rustc:{}", panics::normalise(&e)));
+            return o;
+        }
+        Child::Done { ok: false, stderr, .. } => {
+            let line = first_error_line(&stderr);
+            // a rustc killed by the environment (out of memory, signal) is not a verdict
+            if !stderr.contains("error") {
+                o.discard = Some("rustc-died".into());
+                return o;
+            }
+            let detail: String = stderr.lines().filter(|l| !l.trim().is_empty()).take(12).collect::<Vec<_>>().join("\n");
+            fail!(format!("emitted-rust-does-not-compile:{}", qualifier(&line)), "rustc rejects the emitted Rust: {line}\n{detail}");
+        }
+        Child::Done { .. } => {}
+    }
+    o.compiled = true;
+    let mut run = Command::new(&bin_path);
+    run.current_dir(&dir.0).env("RUST_BACKTRACE", "0");
+    let stdout = match run_limited(run, &dir.0, "run") {
+        Child::Slow => {
+            o.discard = Some("slow".into());
+            return o;
+        }
+        Child::Spawn(e) => {
+            o.discard = Some(format!("cannot-run-binary:{}", panics::normalise(&e)));
+            return o;
+        }
+        Child::Done { ok: false, code, stdout, stderr } => {
+            let msg = panic_message(&stderr);
+            let done = stdout.lines().filter(|l| l.starts_with('=')).count();
+            fail!(format!("generated-program-crashed:{}", qualifier(&msg)), "the generated program ended with {} after {done} of {n} samples (the VM ran all of them): {msg}", code.map(|c| format!("exit code {c}")).unwrap_or_else(|| "a signal".into()));
+        }
+        Child::Done { stdout, .. } => stdout,
+    };
+    o.ran = true;
+    let lines: Vec<&str> = stdout.lines().filter(|l| l.starts_with('=')).collect();
+    if lines.len() != a.samples.len() {
+        fail!("sample-count", "the generated program printed {} samples, the VM produced {}", lines.len(), a.samples.len());
+    }
+    for (t, (l, x)) in lines.iter().zip(a.samples.iter()).enumerate() {
+        let y: Vec<u64> = l[1..].split_whitespace().filter_map(|w| u64::from_str_radix(w, 16).ok()).collect();
+        if y.len() != x.len() {
+            fail!("output-width", "sample {t}: the generated program yields {} words, the VM {}", y.len(), x.len());
+        }
+        for ch in 0..x.len() {
+            if canon(x[ch]) != canon(y[ch]) {
+                fail!("output-differs-from-vm", "sample {t} channel {ch}: vm {:?} ({:#x}) rust {:?} ({:#x})", f64::from_bits(x[ch]), x[ch], f64::from_bits(y[ch]), y[ch]);
+            }
+        }
+        if t > 0 && a.samples[t] != a.samples[0] {
+            o.varying = true;
+        }
+    }
+    o
+}
+
+/// crude syntactic feature test for direct inputs (no generator feature record)
+fn text_stateful(src: &str) -> bool {
+    src.contains("self") || src.contains("mem(") || src.contains("delay(") || src.contains('|')
+}
+
+fn finish(src: &str, inputs: &Inputs, n: u64, classes: Vec<String>, featureful: bool, cx: &Cx) -> CaseResult {
+    let key = format!("{src}\u{1}{}\u{1}{n}", inputs.describe());
+    let hash = hash64(key.as_bytes());
+    let direct = json!({"text": src, "input_kind": inputs.kind, "input_scale": inputs.scale, "n": n});
+    if cx.dry {
+        let mut r = CaseResult::discard("dry");
+        r.render = Some(direct.clone());
+        r.direct = Some(direct);
+        return r;
+    }
+    let o = check(src, inputs, n);
+    if let Some(w) = &o.discard {
+        let mut r = CaseResult::discard(w.clone());
+        r.direct = Some(direct);
+        return r;
+    }
+    let mut r = match &o.fail {
+        Some((s, m)) => CaseResult::fail(hash, s.clone(), m.clone()),
+        None => CaseResult::held(hash),
+    };
+    r.classes = classes;
+    if let Some(why) = &o.refused {
+        r.classes.push("refused".into());
+        r.classes.push(if o.refused_by_frontend { "refused:by-frontend".into() } else { "refused:by-rustgen".into() });
+        r.count(&format!("refused:{why}"), 1);
+    }
+    if o.compiled {
+        r.classes.push("compiled".into());
+    }
+    if o.ran {
+        r.classes.push("ran".into());
+        if o.varying {
+            r.classes.push("output-varies".into());
+        }
+        if o.n_out >= 2 {
+            r.classes.push("multi-out".into());
+        }
+    }
+    for c in &o.counters {
+        r.count(c, 1);
+    }
+    r.nontrivial = (o.ran && featureful) || r.is_fail();
+    if cx.render || r.is_fail() {
+        r.render = Some(json!({"text": src, "inputs": inputs.describe(), "n": n}));
+    }
+    r.direct = Some(direct);
+    r
+}
+
+/// generator configuration: C01's (VM-side findings stay off), WASM-only findings back on
+fn pcfg(cx: &Cx) -> (prog::PCfg, Vec<&'static str>) {
+    let (mut c, off) = c01::pcfg(cx);
+    // recorded findings that concern the WASM backend only do not restrict this property
+    c.tuple_inputs = true;
+    c.modulo = true;
+    c.self_in_tuple = true;
+    c.multi_maker_instances = true;
+    c.tuple_if = true;
+    c.tuple_globals = true;
+    c.block_operands = true;
+    c.proj_in_cond = true;
+    c.capture_destructured = true;
+    let vm_side = [c01::KF_IF_STATE, c01::KF_MULTI_DELAY, c01::KF_NAN_COND, c01::KF_UNRESOLVED_SELF];
+    let off = off.into_iter().filter(|id| vm_side.contains(id)).collect();
+    (c, off)
+}
+
+/// generator exclusions that are expressed as rewrites of the generated AST
+fn apply_exclusions(p: &mut Prog, cx: &Cx, r: &mut Vec<String>) {
+    if cx.excluded(KF_MATH_EXT) {
+        let mut hit = false;
+        prog::visit_prog_mut(p, &mut |e| match e {
+            E::B1(f, _) if EXT_MATH_1.contains(&*f) => {
+                *f = match *f {
+                    "floor" | "ceil" | "round" => "abs",
+                    "tan" | "tanh" | "sinh" => "sin",
+                    _ => "cos",
+                };
+                hit = true;
+            }
+            E::B2(f, _, _) if EXT_MATH_2.contains(&*f) => {
+                *f = "max";
+                hit = true;
+            }
+            _ => {}
+        });
+        if hit {
+            r.push(format!("excluded_by_known_finding:{KF_MATH_EXT}"));
+        }
+    }
+    // `e` -> `e + 0.0`: the value reaches the instruction through an arithmetic register
+    fn plus_zero(e: &mut E) {
+        let old = std::mem::replace(e, E::Now);
+        *e = E::Bin(prog::Bop::Add, Box::new(old), Box::new(E::Lit("0.0".into())));
+    }
+    fn is_proj(e: &E) -> bool {
+        matches!(e, E::Proj(..) | E::Field(..))
+    }
+    let ex_operand = cx.excluded(KF_STATE_OPERAND_PROJ);
+    let ex_time = cx.excluded(KF_DELAY_TIME_PROJ);
+    let (mut hit_operand, mut hit_time) = (false, false);
+    prog::visit_prog_mut(p, &mut |e| match e {
+        E::Mem(_, x) if ex_operand && is_proj(x) => {
+            plus_zero(x);
+            hit_operand = true;
+        }
+        E::Delay(_, _, x, t) => {
+            if ex_operand && is_proj(x) {
+                plus_zero(x);
+                hit_operand = true;
+            }
+            if ex_time && is_proj(t) {
+                plus_zero(t);
+                hit_time = true;
+            }
+        }
+        _ => {}
+    });
+    if hit_operand {
+        r.push(format!("excluded_by_known_finding:{KF_STATE_OPERAND_PROJ}"));
+    }
+    if hit_time {
+        r.push(format!("excluded_by_known_finding:{KF_DELAY_TIME_PROJ}"));
+    }
+}
+
+impl Prop for C18 {
+    fn id(&self) -> &'static str {
+        "C18"
+    }
+    fn spaces(&self, tier: Tier) -> Vec<Space> {
+        match tier {
+            Tier::Quick => vec![Space { name: "gen", size: 112, exhaustive: false, chunk: 8, case_timeout_s: 120.0, what: "generated typed core-language programs x input streams x run lengths (1-16 samples)" }],
+            Tier::Thorough => vec![Space { name: "gen", size: 6000, exhaustive: false, chunk: 8, case_timeout_s: 120.0, what: "generated typed core-language programs x input streams x run lengths (1-16 samples)" }],
+        }
+    }
+    fn run(&self, _space: &str, _index: u64, g: &mut Gen, cx: &Cx) -> CaseResult {
+        let (cfg, off) = pcfg(cx);
+        let mut pg = PG::new(g, cfg);
+        let mut p = pg.program();
+        let feat = pg.feat.clone();
+        let mut counters = vec![];
+        apply_exclusions(&mut p, cx, &mut counters);
+        let src = prog::render(&p, &Layout::default());
+        let inputs = gen_inputs(g);
+        let n = *g.pick(&[4u64, 8, 16, 1, 2, 3, 5, 12]);
+        let classes = feat.classes();
+        let featureful = feat.stateful() || classes.iter().any(|c| matches!(c.as_str(), "f:local-closure" | "f:global-closure" | "f:maker-closure" | "f:hof" | "f:stateful-call"));
+        let mut r = finish(&src, &inputs, n, classes, featureful, cx);
+        for id in off {
+            r.count(&format!("generator_switch_off:{id}"), 1);
+        }
+        for c in counters {
+            r.count(&c, 1);
+        }
+        r
+    }
+    fn run_direct(&self, input: &Value, cx: &Cx) -> Option<CaseResult> {
+        let t = input.get("text")?.as_str()?;
+        let inputs = Inputs { kind: input.get("input_kind").and_then(|v| v.as_u64()).unwrap_or(1) as u8, scale: input.get("input_scale").and_then(|v| v.as_f64()).unwrap_or(1.0) };
+        let n = input.get("n").and_then(|v| v.as_u64()).unwrap_or(4).clamp(1, 64);
+        Some(finish(t, &inputs, n, vec![], text_stateful(t), cx))
+    }
+    fn shrink_direct(&self, input: &Value) -> Vec<Value> {
+        let Some(t) = input.get("text").and_then(|v| v.as_str()) else { return vec![] };
+        let mut out = vec![];
+        let n = input.get("n").and_then(|v| v.as_u64()).unwrap_or(4);
+        for m in [n / 2, n - 1] {
+            if m >= 1 && m < n {
+                let mut v = input.clone();
+                v["n"] = json!(m);
+                out.push(v);
+            }
+        }
+        for s in line_candidates(t).into_iter().chain(text_candidates(t)) {
+            let mut v = input.clone();
+            v["text"] = json!(s);
+            out.push(v);
+        }
+        out
+    }
+    fn rule(&self) -> String {
+        "Cases are (program, input stream, run length 1-16). Programs: type-directed generation over the core language (ProgGen: arithmetic/comparison/logic, builtins, let with tuple/record patterns, if, blocks, named functions, lambdas, local closures, counter-maker closures bound at global scope, higher-order functions, pipes, self (scalar and tuple), mem, delay, now, samplerate, globals, dsp with 0-3 inputs and 1-4 outputs), no plugin calls. Oracle: Context::emit_rust(src) either answers Err (refusal: legal) or Rust source which, concatenated with the repository's test host template (host: now = sample index, samplerate 48000, every external call answered Err as in rust_codegen_test.rs), must compile with `rustc --edition=2024 -C debuginfo=0 -C opt-level=0`, exit with status 0 and print, for every sample, exactly the output words (f64 bits, NaN = NaN) that exec::run_vm yields for the same inputs; the I/O channel counts reported by emit_rust must equal the VM's. Child processes are killed after 30 s (discarded as slow). Non-trivial = Rust was emitted, compiled and run and the program has a stateful or closure feature; distinct by source+inputs+length.".into()
+    }
+    fn assumptions(&self) -> Vec<String> {
+        vec![
+            "rustc on PATH (or $RUSTC) is a correct Rust compiler; scratch files live under /verif/target/rustgen/<pid>-<case>/ and are removed after each case".into(),
+            "the bytecode VM is the reference: programs on which the VM itself crashes or is rejected are discarded, and program shapes with recorded VM-side findings (state in if arms, several delays per function, NaN conditions, unresolved self type) stay switched off".into(),
+            "the host answers every external call with Err exactly like the repository's TestHost; builtin functions the embedded runtime does not implement therefore end the generated program".into(),
+        ]
+    }
+    fn required_classes(&self, _tier: Tier) -> Vec<&'static str> {
+        vec!["compiled", "ran", "f:self", "f:mem"]
+    }
 }
